@@ -17,6 +17,8 @@ from acceptance for `Codecs.env dumps loadsText loadsBytes` / `Codecs.cfg`.  Her
   environment, the line-ending kind / content they determine are functions of the arguments;
 * `expSec_eq` … `expTree_eq`: `expTree … L = normalisedTree di t` for **any** laws `L`;
 * `TreeDicts`, `dictArgs_tree`: metadata contents are JSON objects ⇒ `DictArgs (treeCalls di t)`;
+* `TreeDictsIn Dom`, `dictsIn_tree`: metadata contents lie in the domain `Dom` on which the laws of
+  `json` are assumed (`JsonLaws Dom`) ⇒ `DictsIn Dom (treeCalls di t)`;
 * `reCall_any`, `reLaws_any`: the re-preparation laws `ReLaws` hold for any laws;
 * `tree_roundtrip_concrete`, `tree_fixed_concrete`: the theorems;
 * `normSec_idem` … `normalisedTree_idem`: the normalisation is idempotent.
@@ -182,23 +184,23 @@ theorem contentCall_spec (di : Nat) (c : ContentSec) (htr : c.content.truthy = t
 /-! ## what any laws of the concrete environment determine -/
 
 section Env
-variable (dj : Json → EnvR Text) (lt : Text → EnvR Json) (lb : Bytes → EnvR Json)
+variable {Dom : Json → Prop} (dj : Json → EnvR Text) (lt : Text → EnvR Json) (lb : Bytes → EnvR Json)
 
 /-- a preamble: the kind recorded is the declared one or the one detected on the first line; the
 text read back is the text with that line ending appended when missing -/
-theorem preamble_norm (hjson : JsonLaws dj lt) (st : St) (t : Text) (enc : Option Name) (indent : Option Int)
+theorem preamble_norm (hjson : JsonLaws Dom dj lt) (st : St) (t : Text) (enc : Option Name) (indent : Option Int)
     (le : Option Text) (L : PreambleLaws (env dj lt lb) cfg st t enc indent le) :
     L.leOut = leKind (textDos le t) ∧ L.text.decoded = normText t (textDos le t) := by
-  have F := callFaithful_any dj lt lb hjson st (.preamble (.str t) enc indent le none) rfl L
+  have F := callFaithful_any dj lt lb hjson st (.preamble (.str t) enc indent le none) rfl trivial L
   have h : Reader.Content.text L.text.decoded = .text (normText t (textDos le t)) :=
     RunRT.expected_content_eq _ _ st 0 (.preamble (.str t) enc indent le none) L F
   refine ⟨?_, by injection h⟩
   rw [L.text.hle, L.text.dos_eq]
 
 /-- metadata: the dict parsed back is the dict -/
-theorem meta_norm (hjson : JsonLaws dj lt) (st : St) (l : List (Text × Json)) (enc : Option Name)
-    (L : MetaLaws (env dj lt lb) cfg st (.obj l) enc) : L.parsed = .obj l := by
-  have F := callFaithful_any dj lt lb hjson st (.metadata (.dict (.obj l)) enc (Text.ofAscii b!"json")) rfl L
+theorem meta_norm (hjson : JsonLaws Dom dj lt) (st : St) (l : List (Text × Json)) (hdom : Dom (.obj l))
+    (enc : Option Name) (L : MetaLaws (env dj lt lb) cfg st (.obj l) enc) : L.parsed = .obj l := by
+  have F := callFaithful_any dj lt lb hjson st (.metadata (.dict (.obj l)) enc (Text.ofAscii b!"json")) rfl hdom L
   have h : Reader.Content.metadata L.parsed = .metadata (.obj l) :=
     RunRT.expected_content_eq _ _ st 0 (.metadata (.dict (.obj l)) enc (Text.ofAscii b!"json")) L F
   injection h
@@ -229,8 +231,11 @@ def secDictOk (c : ContentSec) : Bool :=
   | .dict j => j.isObj
   | _ => true
 
-theorem expContent_eq (hjson : JsonLaws dj lt) (di : Nat) (c : ContentSec) (htr : c.content.truthy = true)
-    (hd : c.kind = .metadata → secDictOk c = true) (st : St) (dflt : ContentSec)
+/-- a metadata `dict` lies in the domain `Dom` on which the laws of `json` are assumed -/
+def secDictIn (Dom : Json → Prop) (c : ContentSec) : Prop := ∀ j, c.content = .dict j → Dom j
+
+theorem expContent_eq (hjson : JsonLaws Dom dj lt) (di : Nat) (c : ContentSec) (htr : c.content.truthy = true)
+    (hd : c.kind = .metadata → secDictOk c = true) (hin : c.kind = .metadata → secDictIn Dom c) (st : St) (dflt : ContentSec)
     (hok : (Writer.step (env dj lt lb) cfg st (callOf di c)).2 = .ok)
     (L : CallLaws (env dj lt lb) cfg st (callOf di c)) :
     expContent (env dj lt lb) cfg st dflt (callOf di c) L = normSec di dflt c := by
@@ -250,7 +255,7 @@ theorem expContent_eq (hjson : JsonLaws dj lt) (di : Nat) (c : ContentSec) (htr 
   case metadata.dict j =>
     obtain ⟨l, rfl⟩ := isObj_inv j (hd rfl)
     change MetaLaws (env dj lt lb) cfg st (.obj l) (optText o b!"encoding") at L
-    have h1 := meta_norm dj lt lb hjson st l _ L
+    have h1 := meta_norm dj lt lb hjson st l (hin rfl _ rfl) _ L
     obtain ⟨b, stk, hpre, -⟩ := RunRT.step_ok_inv _ _ st _ hok
     have hfmt : fmtOf o = Text.ofAscii b!"json" := by
       have hpre' : Writer.pre (env dj lt lb) (.metadata (.dict (.obj l)) (optText o b!"encoding") (fmtOf o)) = none :=
@@ -276,8 +281,8 @@ theorem expContent_eq (hjson : JsonLaws dj lt) (di : Nat) (c : ContentSec) (htr 
   all_goals rfl
 
 /-- one step of the walk: the section the loader builds is `normSec` of the section -/
-theorem expSec_eq (hjson : JsonLaws dj lt) (di : Nat) (c : ContentSec)
-    (hd : c.kind = .metadata → secDictOk c = true) (st : St) (dflt : ContentSec) (s : Step)
+theorem expSec_eq (hjson : JsonLaws Dom dj lt) (di : Nat) (c : ContentSec)
+    (hd : c.kind = .metadata → secDictOk c = true) (hin : c.kind = .metadata → secDictIn Dom c) (st : St) (dflt : ContentSec) (s : Step)
     (hs : contentCall di c = s) (hsok : ∃ oc, s = .ok oc)
     (hok : AllOk (env dj lt lb) cfg st (stepCalls s))
     (L : ProgramLawsFrom (env dj lt lb) cfg st (stepCalls s)) :
@@ -286,7 +291,7 @@ theorem expSec_eq (hjson : JsonLaws dj lt) (di : Nat) (c : ContentSec)
   by_cases htr : c.content.truthy = true
   · obtain rfl := contentCall_spec di c htr oc hs
     obtain ⟨L1, Ls⟩ := L
-    exact expContent_eq dj lt lb hjson di c htr hd st dflt hok.1 L1
+    exact expContent_eq dj lt lb hjson di c htr hd hin st dflt hok.1 L1
   · have hf : c.content.truthy = false := by simpa using htr
     have h0 := contentCall_skip di c hf
     rw [hs] at h0
@@ -330,8 +335,34 @@ instance (t : Tree) : Decidable (TreeDicts t) := inferInstanceAs (Decidable (tre
 theorem kind_ne (c : ContentSec) (k : Kind) (h : c.kind = k) (hk : k ≠ .metadata) :
     c.kind = .metadata → secDictOk c = true := fun h' => absurd (h.symm.trans h') hk
 
-theorem expFile_eq (hjson : JsonLaws dj lt) (di : Nat) (f : FileSec) (hf : FileWF' di f)
-    (hd : fileDicts f = true) (st : St) (hok : AllOk (env dj lt lb) cfg st (fileCalls di f))
+/-- the metadata `dict` of a file lies in `Dom` -/
+def fileDictsIn (Dom : Json → Prop) (f : FileSec) : Prop := secDictIn Dom f.metaSec
+/-- the metadata `dict`s of a change and of its files lie in `Dom` -/
+def changeDictsIn (Dom : Json → Prop) (c : ChangeSec) : Prop :=
+  secDictIn Dom c.metaSec ∧ ∀ f ∈ c.files, fileDictsIn Dom f
+
+/-- **Metadata contents lie in the domain on which the laws of `json` are assumed**: every
+`PyVal.dict j` that is the content of a metadata section of the tree — the main one, that of each
+change, that of each file — has `Dom j`.  For CPython `Dom` is `Json.Representable`
+(Model/JsonDom.lean): what the harness presents of a Python `dict` of JSON values. -/
+def TreeDictsIn (Dom : Json → Prop) (t : Tree) : Prop :=
+  secDictIn Dom t.metaSec ∧ ∀ c ∈ t.changes, changeDictsIn Dom c
+
+/-- the trivial domain (laws assumed of every dict) asks nothing of the tree -/
+theorem treeDictsIn_true (t : Tree) : TreeDictsIn (fun _ => True) t :=
+  ⟨fun _ _ => trivial, fun _ _ => ⟨fun _ _ => trivial, fun _ _ _ _ => trivial⟩⟩
+
+/-- a larger domain asks less of the tree -/
+theorem TreeDictsIn.mono {Dom Dom' : Json → Prop} (hsub : ∀ j, Dom j → Dom' j) {t : Tree}
+    (h : TreeDictsIn Dom t) : TreeDictsIn Dom' t :=
+  ⟨fun j hj => hsub j (h.1 j hj), fun c hc =>
+    ⟨fun j hj => hsub j ((h.2 c hc).1 j hj), fun f hf j hj => hsub j ((h.2 c hc).2 f hf j hj)⟩⟩
+
+theorem kind_ne_in (Dom : Json → Prop) (c : ContentSec) (k : Kind) (h : c.kind = k) (hk : k ≠ .metadata) :
+    c.kind = .metadata → secDictIn Dom c := fun h' => absurd (h.symm.trans h') hk
+
+theorem expFile_eq (hjson : JsonLaws Dom dj lt) (di : Nat) (f : FileSec) (hf : FileWF' di f)
+    (hd : fileDicts f = true) (hin : fileDictsIn Dom f) (st : St) (hok : AllOk (env dj lt lb) cfg st (fileCalls di f))
     (L : ProgramLawsFrom (env dj lt lb) cfg st (fileCalls di f)) :
     expFile (env dj lt lb) cfg di st f L = normFile di f := by
   obtain ⟨hkm, hkd, hs⟩ := hf
@@ -342,12 +373,13 @@ theorem expFile_eq (hjson : JsonLaws dj lt) (di : Nat) (f : FileSec) (hf : FileW
   unfold expFile normFile
   simp only
   rw [containerDOpts_file _ _ hoc,
-    expSec_eq dj lt lb hjson di f.metaSec (fun _ => hd) _ newMeta _ rfl (hs _ (by simp [fileSteps])) hokM,
-    expSec_eq dj lt lb hjson di f.diff (kind_ne _ _ hkd (by decide)) _ newDiff _ rfl
+    expSec_eq dj lt lb hjson di f.metaSec (fun _ => hd) (fun _ => hin) _ newMeta _ rfl (hs _ (by simp [fileSteps])) hokM,
+    expSec_eq dj lt lb hjson di f.diff (kind_ne _ _ hkd (by decide)) (kind_ne_in _ _ _ hkd (by decide)) _ newDiff _ rfl
       (hs _ (by simp [fileSteps])) hokD]
 
-theorem expFiles_eq (hjson : JsonLaws dj lt) (di : Nat) (fl : List FileSec) (hfl : ∀ f ∈ fl, FileWF' di f)
-    (hd : fl.all fileDicts = true) : ∀ (st : St) (_ : AllOk (env dj lt lb) cfg st (filesCalls di fl))
+theorem expFiles_eq (hjson : JsonLaws Dom dj lt) (di : Nat) (fl : List FileSec) (hfl : ∀ f ∈ fl, FileWF' di f)
+    (hd : fl.all fileDicts = true) (hin : ∀ f ∈ fl, fileDictsIn Dom f) :
+    ∀ (st : St) (_ : AllOk (env dj lt lb) cfg st (filesCalls di fl))
       (L : ProgramLawsFrom (env dj lt lb) cfg st (filesCalls di fl)),
       expFiles (env dj lt lb) cfg di st fl L = fl.map (normFile di) := by
   induction fl with
@@ -357,11 +389,12 @@ theorem expFiles_eq (hjson : JsonLaws dj lt) (di : Nat) (fl : List FileSec) (hfl
     obtain ⟨hokF, hokR⟩ := (allOk_append _ cfg (fileCalls di f) (filesCalls di fl) st).mp hok
     simp only [List.all_cons, Bool.and_eq_true] at hd
     simp only [expFiles, List.map_cons]
-    rw [expFile_eq dj lt lb hjson di f (hfl f List.mem_cons_self) hd.1 st hokF,
-      ih (fun g hg => hfl g (List.mem_cons_of_mem _ hg)) hd.2 _ hokR]
+    rw [expFile_eq dj lt lb hjson di f (hfl f List.mem_cons_self) hd.1 (hin f List.mem_cons_self) st hokF,
+      ih (fun g hg => hfl g (List.mem_cons_of_mem _ hg)) hd.2 (fun g hg => hin g (List.mem_cons_of_mem _ hg)) _ hokR]
 
-theorem expChange_eq (hjson : JsonLaws dj lt) (di : Nat) (c : ChangeSec) (hc : ChangeWF' di c)
-    (hd : changeDicts c = true) (st : St) (hok : AllOk (env dj lt lb) cfg st (changeCalls di c))
+theorem expChange_eq (hjson : JsonLaws Dom dj lt) (di : Nat) (c : ChangeSec) (hc : ChangeWF' di c)
+    (hd : changeDicts c = true) (hin : changeDictsIn Dom c) (st : St)
+    (hok : AllOk (env dj lt lb) cfg st (changeCalls di c))
     (L : ProgramLawsFrom (env dj lt lb) cfg st (changeCalls di c)) :
     expChange (env dj lt lb) cfg di st c L = normChange di c := by
   obtain ⟨hkp, hkm, hs, hfs⟩ := hc
@@ -376,13 +409,14 @@ theorem expChange_eq (hjson : JsonLaws dj lt) (di : Nat) (c : ChangeSec) (hc : C
   unfold expChange normChange
   simp only
   rw [containerDOpts_change _ _ hoc,
-    expSec_eq dj lt lb hjson di c.preamble (kind_ne _ _ hkp (by decide)) _ newPreamble _ rfl
-      (hs _ (by simp [changeSteps])) hokP,
-    expSec_eq dj lt lb hjson di c.metaSec (fun _ => hd.1) _ newMeta _ rfl (hs _ (by simp [changeSteps])) hokM,
-    expFiles_eq dj lt lb hjson di c.files hfs hd.2 _ hokF]
+    expSec_eq dj lt lb hjson di c.preamble (kind_ne _ _ hkp (by decide)) (kind_ne_in _ _ _ hkp (by decide)) _
+      newPreamble _ rfl (hs _ (by simp [changeSteps])) hokP,
+    expSec_eq dj lt lb hjson di c.metaSec (fun _ => hd.1) (fun _ => hin.1) _ newMeta _ rfl
+      (hs _ (by simp [changeSteps])) hokM,
+    expFiles_eq dj lt lb hjson di c.files hfs hd.2 hin.2 _ hokF]
 
-theorem expChanges_eq (hjson : JsonLaws dj lt) (di : Nat) (cl : List ChangeSec)
-    (hcl : ∀ c ∈ cl, ChangeWF' di c) (hd : cl.all changeDicts = true) :
+theorem expChanges_eq (hjson : JsonLaws Dom dj lt) (di : Nat) (cl : List ChangeSec)
+    (hcl : ∀ c ∈ cl, ChangeWF' di c) (hd : cl.all changeDicts = true) (hin : ∀ c ∈ cl, changeDictsIn Dom c) :
     ∀ (st : St) (_ : AllOk (env dj lt lb) cfg st (changesCalls di cl))
       (L : ProgramLawsFrom (env dj lt lb) cfg st (changesCalls di cl)),
       expChanges (env dj lt lb) cfg di st cl L = cl.map (normChange di) := by
@@ -393,8 +427,8 @@ theorem expChanges_eq (hjson : JsonLaws dj lt) (di : Nat) (cl : List ChangeSec)
     obtain ⟨hokC, hokR⟩ := (allOk_append _ cfg (changeCalls di c) (changesCalls di cl) st).mp hok
     simp only [List.all_cons, Bool.and_eq_true] at hd
     simp only [expChanges, List.map_cons]
-    rw [expChange_eq dj lt lb hjson di c (hcl c List.mem_cons_self) hd.1 st hokC,
-      ih (fun g hg => hcl g (List.mem_cons_of_mem _ hg)) hd.2 _ hokR]
+    rw [expChange_eq dj lt lb hjson di c (hcl c List.mem_cons_self) hd.1 (hin c List.mem_cons_self) st hokC,
+      ih (fun g hg => hcl g (List.mem_cons_of_mem _ hg)) hd.2 (fun g hg => hin g (List.mem_cons_of_mem _ hg)) _ hokR]
 
 theorem ctorArgs_enc (t : Tree) (wv : Text) (enc : Option Name) (ver : Text)
     (h : ctorArgs t wv = .ok (enc, ver)) : enc = optText t.opts b!"encoding" := by
@@ -406,8 +440,8 @@ theorem ctorArgs_enc (t : Tree) (wv : Text) (enc : Option Name) (ver : Text)
     | (rename_i he; injection h with h; injection h with h1 h2; subst h1; exact asOptText_eq _ _ _ he)
 
 /-- **the tree the loader builds is the normalised tree**, whatever the laws -/
-theorem expTree_eq (hjson : JsonLaws dj lt) (di : Nat) (enc : Name) (t : Tree) (hk : TreeOk t)
-    (hd : TreeDicts t) (hs : ∀ s ∈ steps di t, ∃ oc, s = .ok oc)
+theorem expTree_eq (hjson : JsonLaws Dom dj lt) (di : Nat) (enc : Name) (t : Tree) (hk : TreeOk t)
+    (hd : TreeDicts t) (hin : TreeDictsIn Dom t) (hs : ∀ s ∈ steps di t, ∃ oc, s = .ok oc)
     (henc : optText t.opts b!"encoding" = some enc) (st : St)
     (hok : AllOk (env dj lt lb) cfg st (treeCalls di t))
     (L : ProgramLawsFrom (env dj lt lb) cfg st (treeCalls di t)) :
@@ -421,10 +455,11 @@ theorem expTree_eq (hjson : JsonLaws dj lt) (di : Nat) (enc : Name) (t : Tree) (
   unfold expTree normalisedTree
   simp only
   rw [henc,
-    expSec_eq dj lt lb hjson di t.preamble (kind_ne _ _ hkp (by decide)) _ newPreamble _ rfl
-      (hs _ (by simp [steps])) hokP,
-    expSec_eq dj lt lb hjson di t.metaSec (fun _ => hd.1) _ newMeta _ rfl (hs _ (by simp [steps])) hokM,
-    expChanges_eq dj lt lb hjson di t.changes hcs hd.2 _ hokC]
+    expSec_eq dj lt lb hjson di t.preamble (kind_ne _ _ hkp (by decide)) (kind_ne_in _ _ _ hkp (by decide)) _
+      newPreamble _ rfl (hs _ (by simp [steps])) hokP,
+    expSec_eq dj lt lb hjson di t.metaSec (fun _ => hd.1) (fun _ => hin.1) _ newMeta _ rfl
+      (hs _ (by simp [steps])) hokM,
+    expChanges_eq dj lt lb hjson di t.changes hcs hd.2 hin.2 _ hokC]
   rfl
 
 end Env
@@ -525,16 +560,100 @@ theorem dictArgs_tree (di : Nat) (t : Tree) (hk : TreeOk t) (hd : TreeDicts t) :
   exact dictArgs_append _ _ (dictArgs_sec di _ (kind_ne _ _ hk.1.1 (by decide)))
     (dictArgs_append _ _ (dictArgs_sec di _ (fun _ => hd.1)) (dictArgs_changes di _ hk.2 hd.2))
 
+/-! ## `DictsIn` of the calls of a tree -/
+
+theorem dictArgIn_callOf (Dom : Json → Prop) (di : Nat) (c : ContentSec)
+    (hin : c.kind = .metadata → secDictIn Dom c) : dictArgIn Dom (callOf di c) := by
+  obtain ⟨k, o, v⟩ := c
+  cases k <;> cases v <;> first | trivial | exact hin rfl _ rfl
+
+theorem dictsIn_sec (Dom : Json → Prop) (di : Nat) (c : ContentSec) (hin : c.kind = .metadata → secDictIn Dom c) :
+    DictsIn Dom (secCalls di c) := by
+  refine (dictsIn_iff Dom _).mpr ?_
+  intro call hm
+  unfold secCalls at hm
+  cases hcc : contentCall di c with
+  | error e => rw [hcc] at hm; cases hm
+  | ok oc =>
+    cases oc with
+    | none => rw [hcc] at hm; cases hm
+    | some x =>
+      rw [hcc] at hm
+      simp only [stepCalls, List.mem_singleton] at hm
+      subst hm
+      have htr : c.content.truthy = true := by
+        cases h : c.content.truthy with
+        | true => rfl
+        | false =>
+          have := contentCall_skip di c h
+          rw [hcc] at this
+          cases this
+      have hx := contentCall_spec di c htr _ hcc
+      injection hx with hx
+      subst hx
+      exact dictArgIn_callOf Dom di c hin
+
+theorem dictsIn_container (Dom : Json → Prop) (mk : Option Name → Writer.Call)
+    (hmk : ∀ e, dictArgIn Dom (mk e)) (o : DOpts) : DictsIn Dom (stepCalls (containerCall mk o)) := by
+  refine (dictsIn_iff Dom _).mpr ?_
+  intro call hm
+  cases h : containerCall mk o with
+  | error e => rw [h] at hm; cases hm
+  | ok oc =>
+    rw [h, containerCall_enc _ _ _ h] at hm
+    simp only [stepCalls, List.mem_singleton] at hm
+    subst hm
+    exact hmk _
+
+theorem dictsIn_files (Dom : Json → Prop) (di : Nat) (fl : List FileSec) (hk : fl.all fileOk = true)
+    (hin : ∀ f ∈ fl, fileDictsIn Dom f) : DictsIn Dom (filesCalls di fl) := by
+  induction fl with
+  | nil => exact dictsIn_nil Dom
+  | cons f fl ih =>
+    simp only [List.all_cons, Bool.and_eq_true] at hk
+    have hf := hk.1
+    unfold fileOk at hf
+    simp only [Bool.and_eq_true, beq_iff_eq] at hf
+    exact dictsIn_append _ _
+      (dictsIn_append _ _ (dictsIn_container Dom Writer.Call.newFile (fun _ => trivial) _)
+        (dictsIn_append _ _ (dictsIn_sec Dom di _ (fun _ => hin f List.mem_cons_self))
+          (dictsIn_sec Dom di _ (kind_ne_in _ _ _ hf.2 (by decide)))))
+      (ih hk.2 (fun g hg => hin g (List.mem_cons_of_mem _ hg)))
+
+theorem dictsIn_changes (Dom : Json → Prop) (di : Nat) (cl : List ChangeSec) (hk : cl.all changeOk = true)
+    (hin : ∀ c ∈ cl, changeDictsIn Dom c) : DictsIn Dom (changesCalls di cl) := by
+  induction cl with
+  | nil => exact dictsIn_nil Dom
+  | cons c cl ih =>
+    simp only [List.all_cons, Bool.and_eq_true] at hk
+    have hc := hk.1
+    unfold changeOk at hc
+    simp only [Bool.and_eq_true, beq_iff_eq] at hc
+    have hic := hin c List.mem_cons_self
+    exact dictsIn_append _ _
+      (dictsIn_append _ _ (dictsIn_container Dom Writer.Call.newChange (fun _ => trivial) _)
+        (dictsIn_append _ _ (dictsIn_sec Dom di _ (kind_ne_in _ _ _ hc.1.1 (by decide)))
+          (dictsIn_append _ _ (dictsIn_sec Dom di _ (fun _ => hic.1)) (dictsIn_files Dom di _ hc.2 hic.2))))
+      (ih hk.2 (fun g hg => hin g (List.mem_cons_of_mem _ hg)))
+
+/-- the `dict` arguments of the calls of a tree whose metadata contents lie in `Dom` lie in `Dom` -/
+theorem dictsIn_tree (Dom : Json → Prop) (di : Nat) (t : Tree) (hk : TreeOk t) (hin : TreeDictsIn Dom t) :
+    DictsIn Dom (treeCalls di t) := by
+  unfold TreeOk treeOk at hk
+  simp only [Bool.and_eq_true, beq_iff_eq] at hk
+  exact dictsIn_append _ _ (dictsIn_sec Dom di _ (kind_ne_in _ _ _ hk.1.1 (by decide)))
+    (dictsIn_append _ _ (dictsIn_sec Dom di _ (fun _ => hin.1)) (dictsIn_changes Dom di _ hk.2 hin.2))
+
 /-! ## the round trip -/
 
 theorem cfg_chunk_pos : 0 < Codecs.cfg.chunk := by decide
 
 section Env
-variable (dj : Json → EnvR Text) (lt : Text → EnvR Json) (lb : Bytes → EnvR Json)
+variable {Dom : Json → Prop} (dj : Json → EnvR Text) (lt : Text → EnvR Json) (lb : Bytes → EnvR Json)
 
 /-- **Object-model round trip, concrete codecs.** -/
-theorem tree_roundtrip_concrete (hjson : JsonLaws dj lt) (wv : Text) (t : Tree) (b : Bytes) (hk : TreeOk t)
-    (hd : TreeDicts t) (h : toBytes (env dj lt lb) cfg wv t = .ok b) (enc : Name) (calls : List Writer.Call)
+theorem tree_roundtrip_concrete (hjson : JsonLaws Dom dj lt) (wv : Text) (t : Tree) (b : Bytes) (hk : TreeOk t)
+    (hd : TreeDicts t) (hin : TreeDictsIn Dom t) (h : toBytes (env dj lt lb) cfg wv t = .ok b) (enc : Name) (calls : List Writer.Call)
     (hcalls : toCalls cfg.defaultIndent t wv = .ok (some enc, Text.ofAscii b!"1.0", calls))
     (hsize : b.length ≤ Reader.maxRead) :
     fromBytes (env dj lt lb) cfg wv b = .ok (normalisedTree cfg.defaultIndent t) := by
@@ -545,10 +664,11 @@ theorem tree_roundtrip_concrete (hjson : JsonLaws dj lt) (wv : Text) (t : Tree) 
   injection hc' with hc'
   simp only [Prod.mk.injEq] at hc'
   obtain ⟨rfl, rfl, rfl⟩ := hc'
-  obtain ⟨laws, -⟩ := laws_of_accepted dj lt lb hjson enc _ hok (dictArgs_tree _ t hk hd) (by rw [hout]; exact hsize)
+  obtain ⟨laws, -⟩ := laws_of_accepted dj lt lb hjson enc _ hok (dictArgs_tree _ t hk hd)
+    (dictsIn_tree Dom _ t hk hin) (by rw [hout]; exact hsize)
   obtain ⟨-, hall, -⟩ := RunRT.run_ok _ cfg (some enc) (Text.ofAscii b!"1.0") _ hok
   rw [tree_roundtrip_core _ cfg wv t b cfg_chunk_pos hk h enc hcalls laws,
-    expTree_eq dj lt lb hjson _ enc t hk hd (toCalls_steps_ok _ _ _ _ hcalls)
+    expTree_eq dj lt lb hjson _ enc t hk hd hin (toCalls_steps_ok _ _ _ _ hcalls)
       (ctorArgs_enc t wv _ _ hctor).symm _ hall]
 
 end Env
@@ -573,7 +693,7 @@ theorem prepFinish_norm (indent : Option Int) (nl d : Bytes) :
   simp only [e1]
 
 section Env
-variable (dj : Json → EnvR Text) (lt : Text → EnvR Json) (lb : Bytes → EnvR Json)
+variable {Dom : Json → Prop} (dj : Json → EnvR Text) (lt : Text → EnvR Json) (lb : Bytes → EnvR Json)
 
 theorem re_preamble (st : St) (t : Text) (enc : Option Name) (indent : Option Int)
     (le : Option Text) (L : PreambleLaws (env dj lt lb) cfg st t enc indent le) :
@@ -674,8 +794,8 @@ theorem re_diff (st : St) (b : Bytes) (enc : Option Name) (le : Option Text)
   · rw [prepFinish_none, if_pos hends]
 
 /-- **the re-preparation laws hold for any laws** of a call the concrete writer accepted -/
-theorem reCall_any (hjson : JsonLaws dj lt) (st : St) (c : Writer.Call)
-    (hok : (Writer.step (env dj lt lb) cfg st c).2 = .ok) (hwf : dictArgOk c = true)
+theorem reCall_any (hjson : JsonLaws Dom dj lt) (st : St) (c : Writer.Call)
+    (hok : (Writer.step (env dj lt lb) cfg st c).2 = .ok) (hwf : dictArgOk c = true) (hdom : dictArgIn Dom c)
     (L : CallLaws (env dj lt lb) cfg st c) : ReCallLaws (env dj lt lb) cfg st c L := by
   cases c with
   | newChange enc => trivial
@@ -695,9 +815,10 @@ theorem reCall_any (hjson : JsonLaws dj lt) (st : St) (c : Writer.Call)
     cases m with
     | dict j =>
       obtain ⟨l, rfl⟩ := isObj_inv j hwf
+      have hdom : Dom (.obj l) := hdom
       change MetaLaws (env dj lt lb) cfg st (.obj l) enc at L
       show L.parsed ≠ .obj [] ∧ (env dj lt lb).dumps L.parsed = .ok L.text
-      rw [meta_norm dj lt lb hjson st l enc L]
+      rw [meta_norm dj lt lb hjson st l hdom enc L]
       refine ⟨?_, L.hdumps⟩
       obtain ⟨b, stk, hpre, -⟩ := RunRT.step_ok_inv _ _ st _ hok
       intro h
@@ -716,18 +837,18 @@ theorem reCall_any (hjson : JsonLaws dj lt) (st : St) (c : Writer.Call)
     | dict _ => trivial
     | other => trivial
 
-theorem reLaws_any (hjson : JsonLaws dj lt) : ∀ (cs : List Writer.Call) (st : St),
-    AllOk (env dj lt lb) cfg st cs → DictArgs cs →
+theorem reLaws_any (hjson : JsonLaws Dom dj lt) : ∀ (cs : List Writer.Call) (st : St),
+    AllOk (env dj lt lb) cfg st cs → DictArgs cs → DictsIn Dom cs →
     ∀ Ls : ProgramLawsFrom (env dj lt lb) cfg st cs, ReLawsFrom (env dj lt lb) cfg st cs Ls
-  | [], _, _, _, _ => trivial
-  | c :: cs, st, hok, hwf, (L, Ls) =>
-    ⟨reCall_any dj lt lb hjson st c hok.1 (hwf c List.mem_cons_self) L,
-     reLaws_any hjson cs _ hok.2 (fun c' h => hwf c' (List.mem_cons_of_mem _ h)) Ls⟩
+  | [], _, _, _, _, _ => trivial
+  | c :: cs, st, hok, hwf, hdom, (L, Ls) =>
+    ⟨reCall_any dj lt lb hjson st c hok.1 (hwf c List.mem_cons_self) hdom.head L,
+     reLaws_any hjson cs _ hok.2 (fun c' h => hwf c' (List.mem_cons_of_mem _ h)) hdom.tail Ls⟩
 
 /-- **C06 fixed point, concrete codecs**: re-serialising the normalised tree gives the bytes the
 tree serialised to -/
-theorem tree_fixed_concrete (hjson : JsonLaws dj lt) (wv : Text) (t : Tree) (b : Bytes) (hk : TreeOk t)
-    (hd : TreeDicts t) (h : toBytes (env dj lt lb) cfg wv t = .ok b) (enc : Name) (calls : List Writer.Call)
+theorem tree_fixed_concrete (hjson : JsonLaws Dom dj lt) (wv : Text) (t : Tree) (b : Bytes) (hk : TreeOk t)
+    (hd : TreeDicts t) (hin : TreeDictsIn Dom t) (h : toBytes (env dj lt lb) cfg wv t = .ok b) (enc : Name) (calls : List Writer.Call)
     (hcalls : toCalls cfg.defaultIndent t wv = .ok (some enc, Text.ofAscii b!"1.0", calls))
     (hsize : b.length ≤ Reader.maxRead) :
     toBytes (env dj lt lb) cfg wv (normalisedTree cfg.defaultIndent t) = .ok b := by
@@ -739,21 +860,22 @@ theorem tree_fixed_concrete (hjson : JsonLaws dj lt) (wv : Text) (t : Tree) (b :
   simp only [Prod.mk.injEq] at hc'
   obtain ⟨rfl, rfl, rfl⟩ := hc'
   have hdict := dictArgs_tree cfg.defaultIndent t hk hd
-  obtain ⟨laws, -⟩ := laws_of_accepted dj lt lb hjson enc _ hok hdict (by rw [hout]; exact hsize)
+  have hdin := dictsIn_tree Dom cfg.defaultIndent t hk hin
+  obtain ⟨laws, -⟩ := laws_of_accepted dj lt lb hjson enc _ hok hdict hdin (by rw [hout]; exact hsize)
   obtain ⟨-, hall, -⟩ := RunRT.run_ok _ cfg (some enc) (Text.ofAscii b!"1.0") _ hok
   have hfix := tree_fixed_core _ cfg wv t b hk h enc hcalls laws
-    (reLaws_any dj lt lb hjson _ _ hall hdict laws.calls)
-  rwa [expTree_eq dj lt lb hjson _ enc t hk hd (toCalls_steps_ok _ _ _ _ hcalls)
+    (reLaws_any dj lt lb hjson _ _ hall hdict hdin laws.calls)
+  rwa [expTree_eq dj lt lb hjson _ enc t hk hd hin (toCalls_steps_ok _ _ _ _ hcalls)
       (ctorArgs_enc t wv _ _ hctor).symm _ hall] at hfix
 
 end Env
 section Env
-variable (dj : Json → EnvR Text) (lt : Text → EnvR Json) (lb : Bytes → EnvR Json)
+variable {Dom : Json → Prop} (dj : Json → EnvR Text) (lt : Text → EnvR Json) (lb : Bytes → EnvR Json)
 
 /-- **`expectedTree` is the normalised tree, whatever the laws**: the law-indexed tree of
 `Lemmas/DomRoundTrip.lean` is, for the concrete environment, a function of the tree alone -/
-theorem expectedTree_eq (hjson : JsonLaws dj lt) (wv : Text) (t : Tree) (b : Bytes) (hk : TreeOk t)
-    (hd : TreeDicts t) (h : toBytes (env dj lt lb) cfg wv t = .ok b) (enc : Name) (calls : List Writer.Call)
+theorem expectedTree_eq (hjson : JsonLaws Dom dj lt) (wv : Text) (t : Tree) (b : Bytes) (hk : TreeOk t)
+    (hd : TreeDicts t) (hin : TreeDictsIn Dom t) (h : toBytes (env dj lt lb) cfg wv t = .ok b) (enc : Name) (calls : List Writer.Call)
     (hcalls : toCalls cfg.defaultIndent t wv = .ok (some enc, Text.ofAscii b!"1.0", calls))
     (laws : ProgramLaws (env dj lt lb) cfg enc calls) :
     expectedTree (env dj lt lb) cfg wv t enc calls hcalls laws = normalisedTree cfg.defaultIndent t := by
@@ -765,7 +887,7 @@ theorem expectedTree_eq (hjson : JsonLaws dj lt) (wv : Text) (t : Tree) (b : Byt
   simp only [Prod.mk.injEq] at hc'
   obtain ⟨rfl, rfl, rfl⟩ := hc'
   obtain ⟨-, hall, -⟩ := RunRT.run_ok _ cfg (some enc) (Text.ofAscii b!"1.0") _ hok
-  exact expTree_eq dj lt lb hjson _ enc t hk hd (toCalls_steps_ok _ _ _ _ hcalls)
+  exact expTree_eq dj lt lb hjson _ enc t hk hd hin (toCalls_steps_ok _ _ _ _ hcalls)
     (ctorArgs_enc t wv _ _ hctor).symm _ hall _
 
 end Env
